@@ -673,19 +673,14 @@ func (r *Run) checkWALYield(all *prog.FuncInfo, lit *ast.FuncLit, loop ast.Stmt)
 // firstSeqNum is the first sequence number read from the file.
 func (r *Run) checkSkipCount(all *prog.FuncInfo, lit *ast.FuncLit, loop ast.Stmt) {
 	info := all.Pkg.TypesInfo
-	fs, ok := loop.(*ast.ForStmt)
-	if !ok || fs.Init == nil {
-		r.Error("undecided: the WAL skip loop is not a counted for loop")
+	countExpr, ok := countedLoop(info, loop)
+	if !ok {
+		r.Error("undecided: the WAL skip loop is not a counted loop (for i := n; i > 0; i-- / for i := 0; i < n; i++ / for range n)")
 		return
 	}
 	r.Site(loop.Pos(), "WAL skip loop trip count")
 	startAfter := r.P.Field("dkv/wal", "Reader", "startAfter")
-	as, ok := fs.Init.(*ast.AssignStmt)
-	if !ok || len(as.Rhs) != 1 {
-		r.Error("undecided: skip loop init")
-		return
-	}
-	count := resolveLocal(info, lit.Body, as.Rhs[0])
+	count := resolveLocal(info, lit.Body, countExpr)
 	lin, okLin := linearOf(info, lit.Body, count)
 	if !okLin {
 		r.Error("undecided: skip count is not a linear expression: %s", types.ExprString(count))
@@ -714,18 +709,6 @@ func (r *Run) checkSkipCount(all *prog.FuncInfo, lit *ast.FuncLit, loop ast.Stmt
 	want[saName] = 1
 	if !sameLinear(lin, want) {
 		r.Fail(all.Name()+":skip-count", loop.Pos(), nil, "the reader must skip exactly (startAfter - firstSeqNum + 1) records; found %s", types.ExprString(count))
-	}
-	// loop shape: counts down to zero (i > 0; i--) or up to count
-	cond, _ := ast.Unparen(fs.Cond).(*ast.BinaryExpr)
-	inc, _ := fs.Post.(*ast.IncDecStmt)
-	shapeOK := false
-	if cond != nil && inc != nil {
-		if tv, ok := info.Types[cond.Y]; ok && tv.Value != nil && tv.Value.String() == "0" && cond.Op == token.GTR && inc.Tok == token.DEC {
-			shapeOK = true
-		}
-	}
-	if !shapeOK {
-		r.Fail(all.Name()+":skip-loop-shape", loop.Pos(), nil, "the skip loop must run count times (for i := count; i > 0; i--)")
 	}
 	// cursor rewound to 0 after peeking the first sequence number
 	move := r.P.FuncObj("dkv/storage", "(*Cursor).Move")
@@ -816,4 +799,44 @@ func sameLinear(a, b map[string]int) bool {
 		}
 	}
 	return true
+}
+
+// countedLoop recognises a loop that runs exactly n times and returns n:
+// `for i := n; i > 0; i--`, `for i := 0; i < n; i++`, `for i := 1; i <= n; i++`,
+// `for range n` / `for i := range n` over an integer.
+func countedLoop(info *types.Info, loop ast.Stmt) (ast.Expr, bool) {
+	switch x := loop.(type) {
+	case *ast.RangeStmt:
+		if t := info.TypeOf(x.X); t != nil {
+			if b, ok := t.Underlying().(*types.Basic); ok && b.Info()&types.IsInteger != 0 {
+				return x.X, true
+			}
+		}
+	case *ast.ForStmt:
+		as, ok := x.Init.(*ast.AssignStmt)
+		if !ok || len(as.Lhs) != 1 || len(as.Rhs) != 1 {
+			return nil, false
+		}
+		iv := prog.IdentObj(info, as.Lhs[0])
+		cond, _ := ast.Unparen(x.Cond).(*ast.BinaryExpr)
+		inc, _ := x.Post.(*ast.IncDecStmt)
+		if iv == nil || cond == nil || inc == nil || prog.IdentObj(info, cond.X) != iv || prog.IdentObj(info, inc.X) != iv {
+			return nil, false
+		}
+		constIs := func(e ast.Expr, v string) bool {
+			tv, ok := info.Types[e]
+			return ok && tv.Value != nil && tv.Value.String() == v
+		}
+		switch {
+		case inc.Tok == token.DEC && cond.Op == token.GTR && constIs(cond.Y, "0"):
+			return as.Rhs[0], true
+		case inc.Tok == token.DEC && cond.Op == token.GEQ && constIs(cond.Y, "1"):
+			return as.Rhs[0], true
+		case inc.Tok == token.INC && cond.Op == token.LSS && constIs(as.Rhs[0], "0"):
+			return cond.Y, true
+		case inc.Tok == token.INC && cond.Op == token.LEQ && constIs(as.Rhs[0], "1"):
+			return cond.Y, true
+		}
+	}
+	return nil, false
 }
